@@ -187,6 +187,18 @@ func buildScripts(in *input, lim limits) *scriptSet {
 		}
 		s.list = append(s.list, drv.Script{SrcStep: 1, DstStep: 1}, drv.Script{SrcStep: 3, DstStep: 5}, drv.Script{SrcStep: 5, DstStep: 2})
 	}
+	// streaming with uniform destination buffers (every call gets a fresh buffer of that capacity) for every input with
+	// more than 32 KiB of output: decoders with a 32 KiB history ring (deflate and everything built on it) or a
+	// dictionary (lzma, lzw, bzip2) only exercise "the match source is in an earlier buffer" this way, and power-of-two
+	// sizes put every buffer start at the same ring position
+	if in.kind == cserve.KindIOTransformer && m > 32768 {
+		for _, sz := range drv.UniformDstSizes {
+			if sz < m && m/sz <= 40000 {
+				s.list = append(s.list, drv.Script{DstStep: sz})
+			}
+		}
+		s.list = append(s.list, drv.Script{SrcStep: 4096, DstStep: 4096}, drv.Script{SrcStep: 1000, DstStep: 1024})
+	}
 	if n <= 24 {
 		for i := 1; i < n; i++ {
 			for k := i + 1; k < n; k++ {
